@@ -689,7 +689,7 @@ META = {
                    "formatter is the percent-coding inverse of its parser and the `?` separator is split before decoding; (c) Range::parse "
                    "acceptance is dominated by the 2^63-1 bounds and first <= last; (d) the intervals Range::check returns are bounded by the "
                    "object length (difference-bound derivation); (e) digit runs are non-empty and fully consumed. Round-trip identity in general "
-                   "and the rest of the RFC 9110 grammar are value-level and not decided.",
+                   "and the rest of the RFC 9110 grammar are value-level and not decided. Round 4: where EpochSeconds is printed from integers, the fraction is zero-padded to its full width (read from the compiled format template) and sign-and-magnitude (R7).",
     "not_decided": ["round-trip identity in general", "RFC 9110 grammar exactness beyond bounds and digit runs", "mime handling", "EpochSeconds float formatting precision (the integer form is decided by R7)"],
     "assumptions": ["rustc nightly MIR construction", "time crate: to_offset keeps the instant, replace_offset keeps the clock fields; assume_utc/from_unix_timestamp* yield UTC"],
 }
